@@ -170,40 +170,71 @@ def findAllFs (K : Consts) (ts : TypeSystem) (o : Opts) (hp : Heap) (nextXid : I
 
 /-! ### typecheck -/
 
-/-- `TypeSystem.typecheck(fs)`: number of errors (each carries `fs.xmiID`) -/
-def typecheckFs (ts : TypeSystem) (hp : Heap) (a : Nat) : Except Err (List (Option Int)) := do
-  let ob ← match hp[a]? with
-    | some ob => pure ob
-    | none => throw .attributeError
-  let t ← getType ts ob.ty
-  let mut errs : List (Option Int) := []
-  for f in allFeatures t do
+/-- the inner loop of `TypeSystem.typecheck`: one error (carrying the owner's id) per non-null element whose
+    type is not subsumed by the declared element type; an element of an unregistered type raises -/
+def elemErrors (ts : TypeSystem) (hp : Heap) (elemTy : String) (owner : Option Int) :
+    List (Option Nat) → Except Err (List (Option Int))
+  | [] => .ok []
+  | none :: rest => elemErrors ts hp elemTy owner rest
+  | some ea :: rest =>
+    match hp[ea]? with
+    | none => .error .attributeError
+    | some eo =>
+      match getType ts eo.ty with            -- `self.get_type(child)`
+      | .error e => .error e
+      | .ok et =>
+        match elemErrors ts hp elemTy owner rest with
+        | .error e => .error e
+        | .ok r => .ok (if subsumes ts elemTy et.name then r else owner :: r)
+
+/-- the outer loop over `t.all_features`: only features whose range is `uima.cas.FSArray` are looked at -/
+def featErrors (ts : TypeSystem) (hp : Heap) (a : Nat) (owner : Option Int) :
+    List Feature → Except Err (List (Option Int))
+  | [] => .ok []
+  | f :: fs =>
     if f.range == FS_ARRAY then
       match slot hp a f.name with
-      | none => throw .attributeError
+      | none => .error .attributeError        -- the instance lacks the slot
       | some (.ref arr) =>
         match slot hp arr "elements" with
         | some (.refs l) =>
-          for e in l do
-            match e with
-            | none => pure ()
-            | some ea =>
-              let eo ← match hp[ea]? with
-                | some eo => pure eo
-                | none => throw .attributeError
-              let et ← getType ts eo.ty      -- `self.get_type(child)`
-              if !(subsumes ts (f.elem.getD TOP) et.name) then errs := errs ++ [ob.xid]
-        | _ => pure ()
-      | some _ => pure ()
-  return errs
+          match elemErrors ts hp (f.elem.getD TOP) owner l with
+          | .error e => .error e
+          | .ok r1 =>
+            match featErrors ts hp a owner fs with
+            | .error e => .error e
+            | .ok r2 => .ok (r1 ++ r2)
+        | _ => featErrors ts hp a owner fs    -- unset / empty / non-reference elements: nothing to check
+      | some .none => featErrors ts hp a owner fs -- feature unset (`None`)
+      | some _ => .error .attributeError       -- a non-FS value has no `elements`
+    else featErrors ts hp a owner fs
 
-/-- `Cas.typecheck()` -/
-def typecheckCas (K : Consts) (ts : TypeSystem) (c : Cas) (hp : Heap) : Except Err (St × List (Option Int)) := do
-  let s ← findAllFs K ts {} hp c.nextXid (defaultSeeds c)
-  let mut errs : List (Option Int) := []
-  for (_, a) in s.allFs do
-    let e ← typecheckFs ts s.heap a
-    errs := errs ++ e
-  return (s, errs)
+/-- `TypeSystem.typecheck(fs)`: the list of errors, each represented by the `xmiID` it carries -/
+def typecheckFs (ts : TypeSystem) (hp : Heap) (a : Nat) : Except Err (List (Option Int)) :=
+  match hp[a]? with
+  | none => .error .attributeError
+  | some ob =>
+    match getType ts ob.ty with
+    | .error e => .error e
+    | .ok t => featErrors ts hp a ob.xid (allFeatures t)
+
+def typecheckAll (ts : TypeSystem) (hp : Heap) : List Nat → Except Err (List (Option Int))
+  | [] => .ok []
+  | a :: rest =>
+    match typecheckFs ts hp a with
+    | .error e => .error e
+    | .ok r1 =>
+      match typecheckAll ts hp rest with
+      | .error e => .error e
+      | .ok r2 => .ok (r1 ++ r2)
+
+/-- `Cas.typecheck()`: over everything `_find_all_fs` collects -/
+def typecheckCas (K : Consts) (ts : TypeSystem) (c : Cas) (hp : Heap) : Except Err (St × List (Option Int)) :=
+  match findAllFs K ts {} hp c.nextXid (defaultSeeds c) with
+  | .error e => .error e
+  | .ok s =>
+    match typecheckAll ts s.heap (s.allFs.map (·.2)) with
+    | .error e => .error e
+    | .ok errs => .ok (s, errs)
 
 end Cassis.Traverse
